@@ -9,31 +9,37 @@ Theorem C12_sloppy_len_true : forall e b, sloppy_len_claim e = Some b -> always 
 Proof. exact sloppy_len_true. Qed.
 Print Assumptions C12_sloppy_len_true.
 
-(* badCond: `x < a && x > b` with constants a < b is always false — when x has no opaque call *)
-Theorem C12_bad_cond_false_partial : forall l r x a b va vb,
-  unparen l = EBinary OLt x a -> unparen r = EBinary OGt x b ->
-  no_opaque x = true ->
-  const_val a = Some va -> const_val b = Some vb -> cmp_val OLt va vb = Some true ->
-  (vty va = TInt \/ vty va = TFloat) ->
-  always false (EBinary OLAnd l r).
-Proof. exact bad_cond_false_partial. Qed.
-Print Assumptions C12_bad_cond_false_partial.
+(* badCond (after fix 408944d): every expression the matcher flags — `x < a && x > b`, side-effect-free x,
+   constants a < b of any ordered type — is false whenever it yields a value *)
+Theorem C12_bad_cond_false : forall e, bad_cond_less_and_greater e = true -> always false e.
+Proof. exact bad_cond_false. Qed.
+Print Assumptions C12_bad_cond_false.
 
-(* every expression the matcher flags has that shape ... *)
 Theorem C12_bad_cond_matcher_shape : forall e,
   bad_cond_less_and_greater e = true ->
   exists l r x a b va vb, e = EBinary OLAnd l r /\ unparen l = EBinary OLt x a /\ unparen r = EBinary OGt x b /\
-    const_val a = Some va /\ const_val b = Some vb /\ cmp_val OLt va vb = Some true.
+    sef_typed x = true /\ const_val a = Some va /\ const_val b = Some vb /\ cmp_val OLt va vb = Some true.
 Proof. exact bad_cond_matcher_inv. Qed.
 Print Assumptions C12_bad_cond_matcher_shape.
 
-(* ... but the matcher has no purity gate: the claim is false for an operand with side effects *)
-Theorem C12_bad_cond_impure_refuted :
-  exists en e, env_ok en /\ typeof e = Some TBool /\ bad_cond_less_and_greater e = true /\
+(* the semantic core, for any operand without opaque calls *)
+Theorem C12_bad_cond_false_pure_operand : forall l r x a b va vb,
+  unparen l = EBinary OLt x a -> unparen r = EBinary OGt x b ->
+  no_opaque x = true ->
+  const_val a = Some va -> const_val b = Some vb -> cmp_val OLt va vb = Some true ->
+  always false (EBinary OLAnd l r).
+Proof. exact bad_cond_false_partial. Qed.
+Print Assumptions C12_bad_cond_false_pure_operand.
+
+(* before the fix the matcher had no purity gate: the claim was false for an operand with side effects;
+   the current matcher does not flag that expression *)
+Theorem C12_bad_cond_prefix_impure_refuted :
+  exists en e, env_ok en /\ typeof e = Some TBool /\ bad_cond_less_and_greater_prefix e = true /\
     bad_cond_message e = "`f() < 1 && f() > 5` condition is always false" /\
-    eval en e = Some (RVal (VBool true), [Ev "f" [] (VInt 0); Ev "f" [] (VInt 9)]).
-Proof. exact bad_cond_impure_refuted. Qed.
-Print Assumptions C12_bad_cond_impure_refuted.
+    eval en e = Some (RVal (VBool true), [Ev "f" [] (VInt 0); Ev "f" [] (VInt 9)]) /\
+    bad_cond_less_and_greater e = false.
+Proof. exact bad_cond_prefix_impure_refuted. Qed.
+Print Assumptions C12_bad_cond_prefix_impure_refuted.
 
 (* offBy1: `x[len(x)]` (x pure, of slice type) never yields a value *)
 Theorem C12_off_by1_panics : forall e, off_by1 e = true -> always_panics e.
@@ -44,6 +50,25 @@ Print Assumptions C12_off_by1_panics.
 Theorem C12_dup_sub_expr_same : forall o x y, dup_sub_expr (EBinary o x y) = true -> same_value x y.
 Proof. exact dup_sub_expr_same. Qed.
 Print Assumptions C12_dup_sub_expr_same.
+
+(* dupArg (strings.Index/Contains/Compare, bytes.Equal with the same pure argument twice) *)
+Theorem C12_dup_arg_same : forall p x y, dup_arg (ECall (FPrim p) [x; y]) = true -> same_value x y.
+Proof. exact dup_arg_same. Qed.
+Print Assumptions C12_dup_arg_same.
+
+(* nilValReturn: what is flagged is `if x == nil { return .., x, .. }` with side-effect-free x, and there the
+   returned x equals what it was just compared with *)
+Theorem C12_nil_val_return_flagged_pure : forall s, nil_val_return s = true ->
+  sef_typed (nvr_x s) = true /\ In (Some (nvr_x s)) (nvr_results s).
+Proof. exact nil_val_return_flagged_pure. Qed.
+Print Assumptions C12_nil_val_return_flagged_pure.
+
+Theorem C12_nil_val_return_nil : forall en x k vk h h1,
+  env_ok en -> sef_typed x = true -> (forall h', evalS en k h' = Some (RVal vk, h')) ->
+  evalS en (EBinary OEq x k) h = Some (RVal (VBool true), h1) ->
+  h1 = h /\ exists v, evalS en x h1 = Some (RVal v, h1) /\ cmp_val OEq v vk = Some true.
+Proof. exact nil_val_return_nil. Qed.
+Print Assumptions C12_nil_val_return_nil.
 
 Theorem C12_dup_float_exemption_needed :
   cmp_val OEq (VFloat FNaN) (VFloat FNaN) = Some false /\ cmp_val ONe (VFloat FNaN) (VFloat FNaN) = Some true /\
@@ -57,19 +82,26 @@ Theorem C12_dup_lt_gt_false_incl_nan : forall o v c, (o = OLt \/ o = OGt) -> cmp
 Proof. exact cmp_self_lt_gt_false. Qed.
 Print Assumptions C12_dup_lt_gt_false_incl_nan.
 
-(* caseOrder: a flagged case entry that is not the untyped nil can never be the one that is taken *)
-Theorem C12_case_order_unreachable_partial : forall impl es i j t k,
-  In (i, j) (case_order impl es) -> nth_error es i = Some (t, k) -> k <> KNil ->
-  impl_trans_on impl es -> unreachable_entry impl es i.
-Proof. exact case_order_unreachable_partial. Qed.
-Print Assumptions C12_case_order_unreachable_partial.
+(* caseOrder (after fix e000017): a flagged case entry can never be the one that is taken *)
+Theorem C12_case_order_unreachable : forall impl es i j,
+  In (i, j) (case_order impl es) -> impl_trans_on impl es -> unreachable_entry impl es i.
+Proof. exact case_order_unreachable. Qed.
+Print Assumptions C12_case_order_unreachable.
 
-(* `case nil` after `case interface{}` is flagged although a nil interface value takes exactly that arm *)
-Theorem C12_case_order_nil_refuted :
-  exists impl es i j, In (i, j) (case_order impl es) /\ nth_error es i = Some (0%N, KNil) /\
-    impl_trans_on impl es /\ first_match impl es DNil 0 = Some i.
-Proof. exact case_order_nil_refuted. Qed.
-Print Assumptions C12_case_order_nil_refuted.
+(* before the fix: true only for entries other than the untyped nil ... *)
+Theorem C12_case_order_prefix_unreachable_partial : forall impl es i j t k,
+  In (i, j) (case_order_prefix impl es) -> nth_error es i = Some (t, k) -> k <> KNil ->
+  impl_trans_on impl es -> unreachable_entry impl es i.
+Proof. exact case_order_prefix_unreachable_partial. Qed.
+Print Assumptions C12_case_order_prefix_unreachable_partial.
+
+(* ... `case nil` after `case interface{}` was flagged although a nil interface value takes exactly that arm;
+   the current checker reports nothing there *)
+Theorem C12_case_order_prefix_nil_refuted :
+  exists impl es i j, In (i, j) (case_order_prefix impl es) /\ nth_error es i = Some (0%N, KNil) /\
+    impl_trans_on impl es /\ first_match impl es DNil 0 = Some i /\ case_order impl es = [].
+Proof. exact case_order_prefix_nil_refuted. Qed.
+Print Assumptions C12_case_order_prefix_nil_refuted.
 
 (* non-vacuity: each matcher fires on a well-typed expression *)
 Example C12_matchers_fire :
